@@ -661,7 +661,8 @@ def generate(rng):
                 srcs = [a] + [rng.choice(same) for _ in range(rng.choice([0, 1, 1, 2]))]
                 if faulty and rng.random() < 0.2:
                     srcs.append(rng.choice(lv))
-                op = {"op": "concat", "srcs": srcs, "dst": dst, "plus": len(srcs) == 2 and rng.random() < 0.5}
+                op = {"op": "concat", "srcs": srcs, "dst": dst, "plus": len(srcs) == 2 and rng.random() < 0.5,
+                      "as": rng.choice(["list", "list", "tuple", "generator", "iter"])}
             elif r < 0.51:
                 if m.kind != "array":
                     continue
@@ -979,7 +980,10 @@ class Sim:
                 parts = [R[r] for r in op["srcs"]]
                 if op["plus"]:
                     return {op["dst"]: parts[0] + parts[1]}, None
-                return {op["dst"]: struc.concatenate(parts)}, None
+                # documented argument: any iterable of arrays/stacks, not only a list
+                how = op.get("as", "list")
+                arg = {"list": parts, "tuple": tuple(parts), "generator": (p for p in parts), "iter": iter(parts)}[how]
+                return {op["dst"]: struc.concatenate(arg)}, None
             return f
         if name == "stack_variants":
             def f():
